@@ -13,6 +13,7 @@
                                                execute; sync + known-globals only on success)
    Definitions only; the model is of the code as it is. *)
 From Coq Require Import NArith ZArith List Bool.
+From Aelys Require Import Extracted.ReplShape.
 Import ListNotations.
 Local Open Scope N_scope.
 
@@ -136,7 +137,7 @@ Definition do_return (st : gstate) : gstate * bool :=
 
 (* call_function_kind (cached = false) / call_cached_function (cached = true) *)
 Definition host_enter (st : gstate) (L : layout) (cached : bool) : gstate :=
-  let st := register st L in
+  let st := register (if HOST_CALL_CLEARS_FRAMES then with_frames st [] else st) L in
   let st1 := prepare st (l_id L) in
   with_frames st1 (mkFrame (l_id L) (if cached then 0 else l_id L) :: frames st1).
 
@@ -166,7 +167,7 @@ Record res := mkRes { r_st : gstate; r_obs : list Z; r_flags : list N; r_failed 
 
 Definition step_op (st : gstate) (o : op) : gstate * list Z * list N * bool :=
   match o with
-  | OClearFrames => (with_frames st [], [], [], false)
+  | OClearFrames => (if REPL_CLEARS_FRAMES_FIRST then with_frames st [] else st, [], [], false)
   | OExecute L => (execute st L, [], [], false)
   | OSetIdx i v => (set_idx st i (Some v), [], [], false)
   | OAddIdx i k =>
